@@ -117,27 +117,27 @@ impl Connection {
     }
 
     fn parse_frame(&mut self) -> Result<Option<Frame>, Error> {
-        let mut crs = Cursor::new(&self.buffer[..]);
+        loop {
+            let mut crs = Cursor::new(&self.buffer[..]);
 
-        // Check whether a full frame is available
-        match Frame::parse(&mut crs) {
-            // Discard the frame from the buffer
-            Ok(frame) => {
-                let len = crs.position() as usize;
-                self.buffer.advance(len);
+            // Check whether a full frame is available
+            match Frame::parse(&mut crs) {
+                // Discard the frame from the buffer
+                Ok(frame) => {
+                    let len = crs.position() as usize;
+                    self.buffer.advance(len);
 
-                Ok(Some(frame))
+                    return Ok(Some(frame));
+                }
+                // Discard the frame for unknown message from the buffer, and look at what follows it
+                Err(Error::UnknownId(_)) => {
+                    let len = crs.position() as usize;
+                    self.buffer.advance(len);
+                }
+                // Not enough data has been buffered
+                Err(Error::Incomplete(_)) => return Ok(None),
+                Err(e) => return Err(e.into()),
             }
-            // Discard the frame for unknown message from the buffer
-            Err(Error::UnknownId(_)) => {
-                let len = crs.position() as usize;
-                self.buffer.advance(len);
-
-                Ok(None)
-            }
-            // Not enough data has been buffered
-            Err(Error::Incomplete(_)) => Ok(None),
-            Err(e) => Err(e.into()),
         }
     }
 }
